@@ -203,7 +203,7 @@ pub struct C16Case {
 fn c16_strategy(_ctx: &Ctx) -> BoxedStrategy<C16Case> {
   let kinds = prop::sample::select(vec![
     "interval", "interval_unsub", "timer", "delay", "timeout", "timeout_slow", "sample", "debounce", "time_interval",
-    "interval_default", "timer_default", "timer_zero", "interval_slow",
+    "interval_default", "timer_default", "timer_zero", "interval_slow", "interval_us", "timer_us",
   ]);
   (
     kinds,
@@ -218,10 +218,15 @@ fn c16_strategy(_ctx: &Ctx) -> BoxedStrategy<C16Case> {
       // (a second round needs a first one that leaves the hot source alive, and a subscribe
       // call that returns: not the kinds that run inside subscribe or are unsubscribed by
       // the script itself)
-      let second = second && !matches!(kind, "interval_unsub" | "interval_default" | "timer_default" | "interval_slow");
+      let second = second && !matches!(kind, "interval_unsub" | "interval_default" | "timer_default" | "interval_slow" | "interval_us" | "timer_us");
       C16Case { kind: kind.to_string(), d, gaps, ending: if second { 1 } else { ending }, n, second, sched }
     })
     .boxed()
+}
+
+/// a period that is not a whole number of milliseconds (microseconds), picked by the case
+fn sub_ms_period(c: &C16Case) -> u64 {
+  [900u64, 2_900, 10_500, 25_250][(c.d as usize + c.gaps[0] as usize) % 4]
 }
 
 fn c16_build(c: &C16Case) -> Case {
@@ -237,6 +242,16 @@ fn c16_build(c: &C16Case) -> Case {
     "interval" => {
       actions.push(Action::Advance(c.d * (c.n as u64 + 2)));
       Node::Un(Op::Take(c.n), Box::new(Node::Src(0, Src::Interval(c.d))))
+    }
+    "interval_us" => {
+      let us = sub_ms_period(c);
+      actions.push(Action::Advance(us * (c.n as u64 + 2) / 1000 + 1));
+      Node::Un(Op::Take(c.n), Box::new(Node::Src(0, Src::IntervalUs(us))))
+    }
+    "timer_us" => {
+      let us = sub_ms_period(c);
+      actions.push(Action::Advance(us * 3 / 1000 + 1));
+      Node::Src(0, Src::TimerUs(us))
     }
     "interval_slow" => {
       // a subscriber that takes gaps[0] ms for every tick (delay downstream holds the
@@ -353,6 +368,27 @@ fn c16_check(_ctx: &Ctx, c: &C16Case) -> Report {
       rep.classes.push(format!("aborted:{:?}", k));
       return rep;
     }
+  }
+  if c.kind == "interval_us" || c.kind == "timer_us" {
+    // the same definitions on a microsecond scale
+    let us = sub_ms_period(c);
+    let got: Vec<(Rk, u64)> = r.log.recs[0].iter().map(|e| (e.k.clone(), e.vt / 1_000)).collect();
+    let exp: Vec<(Rk, u64)> = if c.kind == "timer_us" {
+      vec![(Rk::N(P::U), us), (Rk::C, us)]
+    } else {
+      let mut v: Vec<(Rk, u64)> = (0..c.n).map(|k| (Rk::N(P::I(k as i64)), (k as u64 + 1) * us)).collect();
+      v.push((Rk::C, c.n as u64 * us));
+      v
+    };
+    rep.nontrivial = true;
+    // (the imperfect-platform schedules add a thread start latency of 1 us per thread: never
+    // early, at most 20 us late)
+    let same = got.len() == exp.len() && got.iter().zip(exp.iter()).all(|(g, e)| g.0 == e.0 && g.1 >= e.1 && g.1 <= e.1 + 20);
+    if !same {
+      let show = |v: &Vec<(Rk, u64)>| v.iter().map(|(k, t)| format!("{}@{}us", k.show(), t)).collect::<Vec<_>>().join(" ");
+      rep.fail = fail(format!("{} with a period of {} us: got <{}>, expected <{}>", c.kind, us, show(&got), show(&exp)));
+    }
+    return rep;
   }
   if !c.second {
     let got: Vec<(Rk, u64)> = r.log.recs[0].iter().map(|e| (e.k.clone(), e.vt / MS)).collect();
@@ -802,7 +838,7 @@ pub fn properties() -> Vec<Property> {
     },
     Property {
       id: "C16",
-      rule: "cases = kind in {interval.take(n), interval unsubscribed between ticks, interval under a subscriber that takes 3..40 ms per tick (ticks consecutive, none early), timer, interval / timer on the default scheduler (run inside subscribe), delay, timeout, timeout with a slow subscriber, sample, debounce, time_interval} x period in {10, 25} ms x gap scripts from {3,7,9,11,15,40} ms (never equal to the period) x ending x generated schedule, 30 % subscribed a second time after the first subscription was cut off right after its last emission (only the second round is judged, counted from its subscribe); oracle = (virtual time, event) pairs equal the timing definition (sample/debounce: strictly increasing selection of source items; sample exact when no tick coincides with an emission); non-trivial = >= 3 timed events; two_threads: delay(d) over one hot source or a merge of two, fed by two emitting threads with generated gaps - every item is handed on exactly d after it was emitted, also while another thread's item is being delayed; or timeout(d).delay(5) fed by two threads with gaps below d - exactly one TimedOut, d after the last hand-over",
+      rule: "cases = kind in {interval.take(n), interval unsubscribed between ticks, interval / timer with periods of 900, 2900, 10500, 25250 us, interval under a subscriber that takes 3..40 ms per tick (ticks consecutive, none early), timer, interval / timer on the default scheduler (run inside subscribe), delay, timeout, timeout with a slow subscriber, sample, debounce, time_interval} x period in {10, 25} ms x gap scripts from {3,7,9,11,15,40} ms (never equal to the period) x ending x generated schedule, 30 % subscribed a second time after the first subscription was cut off right after its last emission (only the second round is judged, counted from its subscribe); oracle = (virtual time, event) pairs equal the timing definition (sample/debounce: strictly increasing selection of source items; sample exact when no tick coincides with an emission); non-trivial = >= 3 timed events; two_threads: delay(d) over one hot source or a merge of two, fed by two emitting threads with generated gaps - every item is handed on exactly d after it was emitted, also while another thread's item is being delayed; or timeout(d).delay(5) fed by two threads with gaps below d - exactly one TimedOut, d after the last hand-over",
       assumptions: vec!["virtual clock owned by the runtime (thread::sleep / Instant redirected)", "timeout arms its timer after the first item (as the statement words it)"],
       subs: vec![
         mk_sub("clock", (1000, 20_000), c16_strategy, c16_check),
